@@ -509,7 +509,7 @@ def arr_exists(a, pred=None):
 # dynamic values
 # ----------------------------------------------------------------------------
 class Val:
-    __slots__ = ("none", "num", "boo", "arr", "tup", "s", "ref", "poly", "py", "kind", "exc")
+    __slots__ = ("none", "num", "boo", "arr", "tup", "s", "ref", "poly", "py", "kind", "exc", "lazy")
 
     def __init__(self, none=None, num=None, boo=None, arr=None, tup=None, s=None, ref=None, poly=None, py=None, kind=None):
         self.none = none  # None (statically not None) | z3 Bool
@@ -522,6 +522,7 @@ class Val:
         self.poly = poly
         self.py = py
         self.kind = kind
+        self.lazy = None  # poly values: numeric facet to use when one is first needed
 
     # constructors -----------------------------------------------------
     @staticmethod
@@ -584,6 +585,9 @@ class Val:
             a = self.arr
             return a.elem(*([z3.IntVal(0)] * a.ndim))  # size-1 array used as scalar
         if self.poly is not None:
+            if getattr(self, "lazy", None) is not None:
+                self.num = self.lazy
+                return self.num
             spec = ctx().types.get(self.poly) or {}
             self.num = n_fresh(self.poly + "!n", spec.get("sort", "real"), spec.get("ext", False))
             return self.num
@@ -688,6 +692,29 @@ def _native(v, f):
 def _arr_ite(c, aa, ba):
     if aa is ba:
         return aa
+    if aa.dtype == ba.dtype and {aa.ndim, ba.ndim} == {1, 2}:
+        # a vector (n,) merged with a column (m,1) / row (1,m): identified with the flat vector (T2)
+        def flat(x):
+            if x.ndim == 1:
+                return x
+            r_, c_ = x.shape
+            if is_lit(c_, 1):
+                f = Arr(1, (r_,), lambda i: x.elem(i, z3.IntVal(0)), x.dtype)
+            elif is_lit(r_, 1):
+                f = Arr(1, (c_,), lambda i: x.elem(z3.IntVal(0), i), x.dtype)
+            else:
+                # symbolic shape: a column when c == 1, a row when r == 1, unknown contents otherwise
+                c0 = ctx()
+                unk = c0.uf(c0.fresh("flatunk"), z3.IntSort(), z3.RealSort())
+                ln = z3.Int(c0.fresh("flatlen"))
+                c0.add_fact(z3.And(ln >= 0, z3.Implies(c_ == 1, ln == r_), z3.Implies(z3.And(r_ == 1, c_ != 1), ln == c_)))
+                if x.dtype != "num":
+                    return None
+                f = Arr(1, (ln,), lambda i: n_ite(c_ == 1, x.elem(i, z3.IntVal(0)), n_ite(r_ == 1, x.elem(z3.IntVal(0), i), N(unk(i)))), "num")
+            return f
+        aa, ba = flat(aa), flat(ba)
+        if aa is None or ba is None:
+            return None
     if aa.ndim != ba.ndim or aa.dtype != ba.dtype:
         return None
     shp = tuple(x if x.eq(y) else z3.simplify(z3.If(c, x, y)) for x, y in zip(aa.shape, ba.shape))
@@ -775,9 +802,24 @@ def val_ite(c, a, b):
         r.py = a.py
     elif b.py is not None and _pure_none(a):
         r.py = b.py
+    if not r._has_primary():
+        # an untyped value merged with None: the same untyped value, possibly None
+        for x, y in ((a, b), (b, a)):
+            if x.poly is not None and _pure_none(y) and not x._has_primary():
+                r.poly, r.lazy, r.ref = x.poly, getattr(x, "lazy", None), x.ref
+                return r
     if not r._has_primary() and r.ref is None:
         if _pure_none(a) and _pure_none(b):
             return a
         r.poly = ctx().fresh("mrg")
         r.ref = "$" + r.poly
+    if r.num is None and r.poly is not None and r.arr is None:
+        la = a.num if a.num is not None else getattr(a, "lazy", None)
+        lb = b.num if b.num is not None else getattr(b, "lazy", None)
+        if la is not None and lb is not None:
+            r.lazy = n_ite(c, la, lb)  # both sides carry a designated numeric value (e.g. RetVal(k))
+        elif la is not None and _pure_none(b):
+            r.lazy = la
+        elif lb is not None and _pure_none(a):
+            r.lazy = lb
     return r
